@@ -179,9 +179,16 @@ def run(res, proof):
     for _ in range(60 if quick else 1500):
         S = sysgen.gen_system(rng)
         jobs.append({'text': sysgen.render(S, rng), 'mode': 'outcome', 'keep_only': rng.choice(['complexes', 'complexes', 'macrostates', 'reactions'])})
+    for _ in range(30 if quick else 600):
+        S = sysgen.gen_system(rng)
+        jobs.append({'text': sysgen.render(S, rng), 'mode': 'outcome', 'reconfigure_while_held': True, 'check_release': True})
     for job, r in zip(jobs, reader.run_jobs(jobs)):
         res.evaluations += 1
         res.nontriv(job['text'])
+        lost = (r.get('registry_after_clear') or []) + (r.get('registry_after_reconfigure') or [])
+        if lost:
+            res.violation('lost-while-referenced:reader-reconfigured', {'text': job['text'], 'then': 'clear_io_objects(); set_io_objects() while the result is held'},
+                          '; '.join(lost[:4]), 'every held object is still the registered singleton of its name')
         if r.get('lost_while_kept'):
             res.violation('reader-objects-lost-while-referenced', {'text': job['text'], 'kept': job.get('keep_only')}, '; '.join(r['lost_while_kept'][:4]),
                           'what a kept complex / macrostate / reaction was built from stays alive and registered')
